@@ -3,7 +3,7 @@
 From Coq Require Import List NArith ZArith Bool.
 From Coq.Strings Require Import Byte.
 From Coq Require Extraction ExtrOcamlBasic.
-From L3 Require Ber BerFixed BerInt Utf8 Frame FrameSpec FrameFixed Filter Escape Dn Entry Result UrlParams Request RequestSeq.
+From L3 Require Ber BerFixed BerInt Utf8 Frame FrameSpec FrameFixed Filter Escape Dn Entry Result UrlParams Request RequestSeq Controls.
 Extraction Language OCaml.
 Extraction "model.ml"
   Byte.to_N Byte.of_N
@@ -14,4 +14,9 @@ Extraction "model.ml"
   Filter.parse Escape.ldap_escape Escape.ldap_unescape Dn.dn_escape Entry.construct
   Result.result_of_tree Result.success Result.non_error Result.cmp_equal Result.cmp_non_error
   UrlParams.get_url_params
-  RequestSeq.run_calls Request.cleared.
+  RequestSeq.run_calls Request.cleared
+  Controls.paged_results Controls.sync_request Controls.pre_read Controls.post_read Controls.assertion_of Controls.matched_values_of
+  Controls.proxy_auth Controls.txn_spec Controls.manage_dsa_it Controls.relax_rules Controls.make_critical
+  Controls.whoami Controls.starttls Controls.start_txn Controls.passmod Controls.end_txn
+  Controls.parse_value Controls.parse_paged Controls.parse_sync_state Controls.parse_sync_done Controls.parse_syncinfo
+  Controls.parse_read_entry Controls.parse_utf8_val Controls.parse_passmod_resp.
